@@ -147,3 +147,11 @@ def yaml_file(doc):
     yaml.safe_dump(doc, f)
     f.close()
     return f.name
+
+
+def utf8_valid(b):
+    try:
+        b.decode("utf-8")
+    except UnicodeDecodeError:
+        return False
+    return True
